@@ -55,7 +55,7 @@ from pymemcache.client.base import Client, PooledClient
 from pymemcache.client.hash import HashClient
 from pymemcache.client.retrying import RetryingClient
 from pymemcache import serde as serde_mod
-CONFIGS = [dict(), dict(key_prefix=b"pfx:"), dict(default_noreply=False), dict(encoding="utf-8"), dict(allow_unicode_keys=True),
+CONFIGS = [dict(), dict(key_prefix=b"pfx:"), dict(key_prefix="strpfx:"), dict(default_noreply=False), dict(encoding="utf-8"), dict(allow_unicode_keys=True),
            dict(serde=serde_mod.pickle_serde), dict(key_prefix=b"p", default_noreply=False, encoding="utf-8", allow_unicode_keys=True),
            dict(no_delay=True, connect_timeout=3, timeout=4)]
 OPS = {
